@@ -146,9 +146,11 @@ func TestChild(t *testing.T) {
 		err := conn.Set(key, v)
 		fmt.Println("CHILD set", err == nil, err)
 	case "loop":
-		// keep overwriting until killed
+		// keep overwriting until killed (and never longer than 20 s: a child
+		// that escapes its killer must not linger)
 		fmt.Println("CHILD ready")
-		for i := 0; ; i++ {
+		start := time.Now()
+		for i := 0; time.Since(start) < 20*time.Second; i++ {
 			v := MakeValue(fmt.Sprintf("%s.%d", id, i), size, false)
 			if err := conn.Set(key, v); err != nil {
 				fmt.Println("CHILD set-error", err)
@@ -362,6 +364,8 @@ func TestC15Kill(t *testing.T) {
 			cmd = exec.Command("strace", args...)
 			cmd.Env = inner.Env
 		}
+		// own process group, killed as a whole (strace's tracee must die with it)
+		cmd.SysProcAttr = &syscall.SysProcAttr{Setpgid: true, Pdeathsig: syscall.SIGKILL}
 		stdout, _ := cmd.StdoutPipe()
 		if err := cmd.Start(); err != nil {
 			r.Inconclusive("cannot start child: " + err.Error())
@@ -382,9 +386,10 @@ func TestC15Kill(t *testing.T) {
 		case <-ready:
 		case <-time.After(20 * time.Second):
 		}
+		pgid := cmd.Process.Pid
 		if mode == "timed" {
 			time.Sleep(time.Duration(delayMs) * time.Millisecond)
-			cmd.Process.Kill()
+			syscall.Kill(-pgid, syscall.SIGKILL)
 		} else {
 			// strace kills the child at the injected syscall; give it a moment, then make sure
 			done := make(chan struct{})
@@ -392,12 +397,10 @@ func TestC15Kill(t *testing.T) {
 			select {
 			case <-done:
 			case <-time.After(3 * time.Second):
-				cmd.Process.Kill()
-				syscall.Kill(-cmd.Process.Pid, syscall.SIGKILL)
 			}
 		}
+		syscall.Kill(-pgid, syscall.SIGKILL) // whatever is left of the group
 		cmd.Wait()
-		exec.Command("pkill", "-KILL", "-f", "VERIF_CHILD_MARK_"+filepath.Base(dir)).Run()
 		files, temps, sizes := diskState(dir)
 		res := judgeGet(r, backend, dir, key, allowed, fmt.Sprintf("backend=%s,mode=%s", backend, mode), fmt.Sprintf("after the writer was killed (%s)", mode))
 		state := "complete-file"
